@@ -456,7 +456,10 @@ class Gen:
         if r < 0.3:
             return self.decl(d)
         if r < 0.45 and d < self.max_depth:
-            return ("if", self.expr("bool", d + 1), ("block", self.block(d + 1, None if ret_ty is None else None, n=self.rng.randrange(0, 3)) if ret_ty is None else self.maybe_return_block(d + 1, ret_ty)),
+            # now and then the condition is a CONSTANT (a literal, or something the translator folds): the branch taken is the one the constant selects, else included
+            cnd = self.pick([("bool", False), ("bool", True), ("binary", ">", ("int", 1), ("int", 2)), ("unary", "!", ("bool", True)), ("binary", "==", ("str", "a"), ("str", "b")),
+                             ("binary", "<", ("int", 1), ("int", 2))]) if self.chance(0.12) else self.expr("bool", d + 1)
+            return ("if", cnd, ("block", self.block(d + 1, None if ret_ty is None else None, n=self.rng.randrange(0, 3)) if ret_ty is None else self.maybe_return_block(d + 1, ret_ty)),
                     None if self.chance(0.5) else ("block", self.block(d + 1, None, n=self.rng.randrange(0, 3)) if ret_ty is None else self.maybe_return_block(d + 1, ret_ty)))
         if r < 0.55 and d < self.max_depth:
             return self.switch(d, ret_ty)
